@@ -45,7 +45,7 @@ import (
 // checks every identity in every trigger and in every published shares message.
 
 const (
-	c02Set        = 3 // the keyper set the keyper under test belongs to
+	c02Set        = 1 // the keyper set the keyper under test belongs to (below n: aliases with a keyper index)
 	c02OtherSet   = 4 // a set it does not belong to (key generation succeeded)
 	c02Activation = 2 // activation block of set 3
 	c02T1         = syncx.GenesisTime + 12
